@@ -1627,6 +1627,7 @@ class Evaluator:
         res = self.models.call(ci)
         if res is not None:
             self.stats["modelled"].add(name)
+            self.check_not_swallowed(st, name, res)
             return self.apply_results(ci, res)
         # 3b. a closure / function value called through a generic `F: Fn*` parameter: dispatch on the value
         if fnj.get("item") in ("call", "call_mut", "call_once") and (fnj.get("trait") or "").startswith("core::ops::function::Fn") and len(args) == 2 and target is not None:
@@ -1732,6 +1733,23 @@ class Evaluator:
                 break
         cache[path] = why
         return why
+
+    def check_not_swallowed(self, st, name, res):
+        """A model may keep a lazy iterator (`map(f)`, `flat_map(f)`: an `iter` value, consumed later) but a *consumer* whose model
+        keeps the iteration symbolic (`fold`, `sum`, `count`, `collect`, `last`, ...) never runs the adaptors' closures: if one of
+        them has effects, they would silently disappear from every path."""
+        vals = []
+        if isinstance(res, tuple) and res and res[0] == "fork":
+            vals = [v for _, v in res[1] if isinstance(v, tuple)]
+        elif isinstance(res, tuple) and res and res[0] not in ("panic!", "inline", "suspend", "native", "multi", "iter", "closure", "fn", "ref"):
+            vals = [res]
+        for v in vals:
+            if not (isinstance(v, tuple) and v and v[0] == "app"):
+                continue
+            bad = self.effectful_fn_values(st, v)
+            if bad:
+                raise Unsupported("%s is kept symbolic over an iterator whose closure %s has effects (%s): they would not happen on any path"
+                                  % (name, bad[0][0].split("::", 1)[-1], bad[0][1]))
 
     def effectful_fn_values(self, st, v, depth=0, out=None, seen=None):
         """function values (closures, function items of the workspace) reachable in term `v` whose invocation may have effects"""
